@@ -415,6 +415,9 @@ def judge(case, run):
             out.append((pre + "yaml-value:streamed-prints-bare-alias-as-result", None))
             feats.discard("alias-kept-vs-expanded")
             feats = {f for f in feats if not f.startswith("unexplained")}
+            # the expanded value occupies different lines than the bare `*x`, so line-structure features of the token
+            # diff are a consequence of the same root cause here; keep them apart from a difference seen on its own
+            feats = {(f + ":alongside-bare-alias-result" if f in ("indentation", "flow-vs-block", "line-count") else f) for f in feats}
         if "key-order" in feats:
             feats.discard("key-order"); out.append((pre + "yaml-key-order:" + fname, None))
         return out + [(pre + "yaml-style-only:" + f, None) for f in sorted(feats)] if (out or feats) else [(pre + "yaml-style-only:unexplained:no-feature", None)]
